@@ -182,10 +182,10 @@ def run_c16(res, tier, rng, binary):
     inert = [c for c in allc if not any(s["out"] or s["nin"] for s in c["steps"])]
     inside = [c for c in allc if not any(s["out"] for s in c["steps"]) and any(s["nin"] for s in c["steps"])]
     if quick:
-        esc_sel = rng.sample(esc, min(len(esc), 300))
-        inside_sel = rng.sample(inside, min(len(inside), 400))
-        inert_sel = [c for c in inert if len(c["items"]) <= 2] + rng.sample([c for c in inert if len(c["items"]) > 2], 1200)
-        n_full = 60
+        esc_sel = rng.sample(esc, min(len(esc), 250))
+        inside_sel = rng.sample(inside, min(len(inside), 300))
+        inert_sel = [c for c in inert if len(c["items"]) <= 2] + rng.sample([c for c in inert if len(c["items"]) > 2], 900)
+        n_full = 40
     else:
         esc_sel, inside_sel, inert_sel, n_full = esc, inside, inert, 1500
     res.cov["keys_enumerated"] = len({json.dumps(c["items"]) for c in allc})
@@ -554,7 +554,7 @@ def run_c14(res, tier, rng, binary):
     doubles = [v for v in reqs.values() if len(v[0]["bk"]) == 2]
     res.cov["requests_enumerated"] = {"single_bucket": len(singles), "two_bucket": len(doubles)}
     if quick:
-        sel = rng.sample(singles, 600) + rng.sample(doubles, 220)
+        sel = rng.sample(singles, 450) + rng.sample(doubles, 160)
         reps = 3
     else:
         sel, reps = singles + doubles, 4
@@ -790,12 +790,11 @@ def run_c15(res, tier, rng, binary):
     if quick:
         panics = [m for m in danger if m["c"]["n"] > 1024]
         holes = [m for m in danger if m["c"]["n"] <= 1024]
-        sel_d = rng.sample(panics, 3) + rng.sample(holes, min(len(holes), 8))
-        sel = rng.sample(trunc, 40) + rng.sample(small, 160) + rng.sample(big, 16)
+        sel_d = rng.sample(panics, 3) + rng.sample(holes, min(len(holes), 6))
+        sel = rng.sample(trunc, 30) + rng.sample(small, 130) + rng.sample(big, 12)
     else:
-        sel_d = rng.sample(danger, min(len(danger), 150))
-        sel = trunc[:] if len(trunc) < 1500 else rng.sample(trunc, 1500)
-        sel += small + rng.sample(big, min(len(big), 500))
+        sel_d = rng.sample(danger, min(len(danger), 100))
+        sel = rng.sample(trunc, min(len(trunc), 600)) + small + rng.sample(big, min(len(big), 300))
     res.cov["cases_selected"] = {"dangerous": len(sel_d), "other": len(sel)}
     now_year = datetime.datetime.utcnow().year
     # units: A = before the restart, B = after; dangerous cases alone, the others in batches on one root
@@ -876,9 +875,14 @@ def run_c15(res, tier, rng, binary):
             w2 = ob[k["b_at"] + 1] if k["writable"] else {}
             info3 = info_schema(ob[k["b_at"] + 2]) if k["writable"] else info2
             want = dict(names=k["names"], types=k["types"], var=k["var"], tf_ns=k["tf_ns"])
-            if created == "rejected" and info2 == "absent":
-                stats["rejected_cleanly"] += 1
+            if created in ("rejected", "panic") and info2 == "absent":
+                stats["rejected_cleanly" if created == "rejected" else "panicked_but_absent_after_restart"] += 1
                 continue                                           # rejected: nothing to preserve
+            if created == "panic" and kn["created"] == "panic_empty_file" and "TooManyColumnsPanic" in known and info2 != want:
+                res.known_finding(known["TooManyColumnsPanic"], {"key": k["key"], "columns": c["n"], "create": cr.get("panic"),
+                                                                 "after_restart": short(info2)})
+                stats["known_panic_then_garbage"] += 1
+                continue
             if created == "ok" and info2 == want and info3 == want and not (w2.get("err") or w2.get("panic")) and not (wr1.get("err") or wr1.get("panic")):
                 stats["preserved"] += 1
                 if not m["expect"] == "ok":
@@ -904,7 +908,7 @@ def run_c15(res, tier, rng, binary):
                     return set(d[0]) <= bad_n and set(d[1]) <= bad_t
                 w2_ok = not (w2.get("err") or w2.get("panic"))
                 # a bucket that enforces a truncated name rejects the created one; a corrupted header may reject anything
-                w2_fits = (not w2_ok) if ("NameTruncated32" in hit and not (bad_n or bad_t or kn["bad_fixed"])) else True
+                w2_fits = (not w2_ok) if (k["writable"] and "NameTruncated32" in hit and not (bad_n or bad_t or kn["bad_fixed"])) else True
                 wr1_ok = not (wr1.get("err") or wr1.get("panic"))
                 ok_known = fits(info2) and fits(info3) and w2_fits and (wr1_ok or "NameTruncated32" in hit)
             if ok_known:
